@@ -887,10 +887,10 @@ func heldSuffix(h map[string]bool, key string) bool {
 // on the corresponding edge of a branch on the call.
 
 type lockSummary struct {
-	recv    string      // receiver (or "" for a function) identifier the keys are relative to
-	acq     []string    // keys acquired on every exit
-	rel     []string    // keys released (not acquired by itself) on every exit
-	condAcq []string    // keys held exactly when the boolean result equals condVal
+	recv    string   // receiver (or "" for a function) identifier the keys are relative to
+	acq     []string // keys acquired on every exit
+	rel     []string // keys released (not acquired by itself) on every exit
+	condAcq []string // keys held exactly when the boolean result equals condVal
 	condVal bool
 	pos     map[string]token.Pos
 }
